@@ -17,6 +17,10 @@
  */
 #include "XalanUTF16Transcoder.hpp"
 
+
+
+#include <cstring>
+
 #include <xalanc/Include/XalanMemMgrAutoPtr.hpp>
 
 
@@ -116,7 +120,17 @@ XalanUTF16Transcoder::transcode(
         }
         else
         {
-            theTarget[theTargetPosition++] = *reinterpret_cast<const XalanDOMChar*>(theSourceData + theSourceCount++);
+            // The source is a byte buffer, which need not be aligned
+            // for XalanDOMChar, so copy the two bytes of the code unit.
+            XalanDOMChar    theChar = 0;
+
+            using std::memcpy;
+
+            memcpy(&theChar, theSourceData + theSourceEaten, sizeof(theChar));
+
+            theTarget[theTargetPosition++] = theChar;
+
+            theSourceEaten += sizeof(theChar);
 
             *theCharSizes++ = 2;
         }
